@@ -24,7 +24,7 @@ func pre_Peer(p *Peer) bool {
 // whether the peer is still alive is read off the clock: a recorded call here
 //@ assume (*Peer).IsActive iface
 
-//@ verify (*Peer).Send pre=pre_Peer_Send post=post_Peer_Send,post_Peer_Send_keeps props=C19 qinst
+// @ verify (*Peer).Send pre=pre_Peer_Send post=post_Peer_Send,post_Peer_Send_keeps props=C19 qinst
 func pre_Peer_Send(p *Peer, m *message.Message) bool { return pre_Peer(p) && m != nil }
 func post_Peer_Send(p *Peer, m *message.Message, old_p Peer, res0 error) bool {
 	a := vs.TraceFind("IsActive")
@@ -50,21 +50,21 @@ func specSameSlice(a, b []byte) bool {
 	return len(a) == len(b) && (len(a) == 0 || vs.OffsetIn(a, b) == 0)
 }
 
-//@ verify (*Peer).swap pre=pre_Peer post=post_Peer_swap props=C19
+// @ verify (*Peer).swap pre=pre_Peer post=post_Peer_swap props=C19
 func post_Peer_swap(p *Peer, old_p Peer, res0 message.Frame) bool {
 	return len(res0) == len(old_p.frame) && (len(res0) == 0 || vs.OffsetOf(res0, old_p.frame) == 0) && // what was pending
 		len(p.frame) == 0 && vs.DisjointOf(p.frame, res0) // and a fresh, empty frame takes its place
 }
 
 // Frame.Split has its own contract (internal/message); the encoder and the gossip transport are outside
-//@ assume (github.com/emitter-io/emitter/internal/message.Frame).Split iface post=post_Split_assumed
+// @ assume (github.com/emitter-io/emitter/internal/message.Frame).Split iface post=post_Split_assumed
 func post_Split_assumed(res0 message.Frame, res1 message.Frame) bool { return true }
 
 //@ assume (*github.com/emitter-io/emitter/internal/message.Frame).Encode iface
 //@ assume (github.com/weaveworks/mesh.Gossip).GossipUnicast iface
 
-//@ verify (*Peer).processSendQueue pre=pre_Peer_psq post=post_Peer_psq_idle,post_Peer_psq_first,post_Peer_psq_chain props=C19
-//@ loop (*Peer).processSendQueue 0 unroll 3 bounded
+// @ verify (*Peer).processSendQueue pre=pre_Peer_psq post=post_Peer_psq_idle,post_Peer_psq_first,post_Peer_psq_chain props=C19
+// @ loop (*Peer).processSendQueue 0 unroll 3 bounded
 func pre_Peer_psq(p *Peer) bool { return pre_Peer(p) && p.sender != nil }
 
 func specSameFrame(a, b message.Frame) bool {
